@@ -52,6 +52,26 @@ func c07Run(c *mon.Ctx, r *mon.Rand) {
 	cached := r.Bool()
 	var rec *mon.Recorder
 	opts := tally.ScopeOptions{OmitCardinalityMetrics: r.Bool()}
+	// half of the runs: the root carries tags (prefix-only subscopes then share
+	// their tag set with the root and with each other)
+	var rootTags map[string]string
+	if r.Bool() {
+		rootTags = map[string]string{"rt": "x", "zone": "z1"}
+		opts.Tags = map[string]string{"rt": "x", "zone": "z1"}
+	}
+	withRT := func(m map[string]string) map[string]string {
+		if len(rootTags) == 0 {
+			return m
+		}
+		out := map[string]string{}
+		for k, v := range rootTags {
+			out[k] = v
+		}
+		for k, v := range m {
+			out[k] = v
+		}
+		return out
+	}
 	if cached {
 		cr := mon.NewCachedRec(false)
 		rec = cr.Recorder
@@ -93,7 +113,7 @@ func c07Run(c *mon.Ctx, r *mon.Rand) {
 		opts.SanitizeOptions = &so
 	}
 	root, closer := vNewRoot(opts, interval, shards)
-	desc := map[string]interface{}{"sanitizer": withSan, "cached": cached, "shards": shards, "interval_us": interval.Microseconds(), "workers": nWorkers, "passers": nPassers,
+	desc := map[string]interface{}{"sanitizer": withSan, "root_tags": len(rootTags), "cached": cached, "shards": shards, "interval_us": interval.Microseconds(), "workers": nWorkers, "passers": nPassers,
 		"epochs": epochs, "ops_per_epoch": opsPerEpoch, "delay_strength": prof.Strength}
 	c.LogCase(fmt.Sprint(desc))
 	stopWatch := c.Watchdog(300*time.Second, "no-progress(deadlock?)", desc)
@@ -119,11 +139,11 @@ func c07Run(c *mon.Ctx, r *mon.Rand) {
 		for k := 0; k < n; k++ {
 			id := &c07Ident{name: fmt.Sprintf("w%d_k%d", w, k), tagged: r.Bool(), never: k == 0 && r.Chance(1, 3)}
 			if id.tagged {
-				id.key = mon.IdentKey("c", map[string]string{"id": id.name})
-				id.histKey = mon.BucketKeyV("h", map[string]string{"id": id.name}, -1.7976931348623157e308, 1.7976931348623157e308)
+				id.key = mon.IdentKey("c", withRT(map[string]string{"id": id.name}))
+				id.histKey = mon.BucketKeyV("h", withRT(map[string]string{"id": id.name}), -1.7976931348623157e308, 1.7976931348623157e308)
 			} else {
-				id.key = mon.IdentKey(id.name+".c", nil)
-				id.histKey = mon.BucketKeyV(id.name+".h", nil, -1.7976931348623157e308, 1.7976931348623157e308)
+				id.key = mon.IdentKey(id.name+".c", withRT(nil))
+				id.histKey = mon.BucketKeyV(id.name+".h", withRT(nil), -1.7976931348623157e308, 1.7976931348623157e308)
 			}
 			mine = append(mine, id)
 		}
@@ -138,7 +158,7 @@ func c07Run(c *mon.Ctx, r *mon.Rand) {
 	}
 	// two identities shared by all workers: only these make the identity history
 	// concurrent; their counters are checked for "never more than recorded"
-	shared := []*c07Ident{{name: "shared_0", key: mon.IdentKey("shared_0.c", nil)}, {name: "shared_1", tagged: true, key: mon.IdentKey("c", map[string]string{"id": "shared_1"})}}
+	shared := []*c07Ident{{name: "shared_0", key: mon.IdentKey("shared_0.c", withRT(nil))}, {name: "shared_1", tagged: true, key: mon.IdentKey("c", withRT(map[string]string{"id": "shared_1"}))}}
 	var sharedSum [2]int64
 	for _, id := range shared {
 		expectedKeys[id.key] = true
